@@ -137,6 +137,9 @@ Proof.
 Qed.
 
 (* ------------------------------------------------------------------ exports *)
+Definition is_extend (s : stmt) : bool := match s with SExtend _ => true | _ => false end.
+Definition no_extend (body : list stmt) : bool := forallb (fun x => negb (is_extend x)) body.
+
 Definition book (s : stmt) (ex : list name) : list name :=
   match s with
   | SSet x _ | SMacro x _ => if public x then sadd x ex else ex
@@ -213,6 +216,11 @@ Section Book.
                 | Err e => Err e
                 end
             end
+        | SExtend t =>
+            match get_target ts t with
+            | None => Err ENotFound
+            | Some tg => run_body P ts fu top s (t_body tg)
+            end
         | SScope k v vals body =>
             fold_left (fun acc val =>
                          match acc with
@@ -265,11 +273,11 @@ Section Book.
       injection H1 as <-. exists s0. now split.
   Qed.
 
-  Lemma run_stmt_book : forall fuel s x s',
+  Lemma run_stmt_book : forall fuel s x s', is_extend x = false ->
     run_stmt P ts fuel true s x = Ok s' -> c_exported (s_ctx s') = book x (c_exported (s_ctx s)).
   Proof.
-    intros [|fu] s x s' H; [discriminate|]. rewrite run_stmt_S in H. cbv zeta in H.
-    destruct x as [o|v|m v|v e|m b|tg il wc ig|t a wc|t names wc|k v vals body]; cbn [book].
+    intros [|fu] s x s' Hx H; [discriminate|]. rewrite run_stmt_S in H. cbv zeta in H.
+    destruct x as [o|v|m v|v e|m b|tg il wc ig|t a wc|t names wc|k v vals body|t]; cbn [book]; [| | | | | | | | |discriminate].
     - injection H as <-. reflexivity.
     - injection H as <-. reflexivity.
     - destruct (show_attr _ _); [injection H as <-; reflexivity|discriminate].
@@ -286,14 +294,15 @@ Section Book.
     - destruct (scope_fold_book _ _ _ _ _ _ _ _ H) as [s0 [H0 H1]]. injection H0 as <-. now rewrite H1.
   Qed.
 
-  Lemma run_body_book : forall fuel s body s',
+  Lemma run_body_book : forall fuel s body s', forallb (fun x => negb (is_extend x)) body = true ->
     run_body P ts fuel true s body = Ok s' ->
     c_exported (s_ctx s') = fold_left (fun ex x => book x ex) body (c_exported (s_ctx s)).
   Proof.
-    induction fuel as [|fu IH]; intros s body s' H; [discriminate|].
+    induction fuel as [|fu IH]; intros s body s' Hn H; [discriminate|].
     rewrite run_body_S in H. destruct body as [|x rest]; [injection H as <-; reflexivity|].
+    cbn [forallb] in Hn. apply andb_true_iff in Hn. destruct Hn as [Hx Hr]. apply negb_true_iff in Hx.
     destruct (run_stmt P ts fu true s x) as [s1|e] eqn:E1; [|discriminate].
-    cbn [fold_left]. rewrite <- (run_stmt_book _ _ _ _ E1). now apply IH.
+    cbn [fold_left]. rewrite <- (run_stmt_book _ _ _ _ Hx E1). now apply IH.
   Qed.
 End Book.
 
@@ -330,7 +339,7 @@ Lemma mem_book : forall x s ex, mem x (book s ex) = step_bool x s (mem x ex) \/ 
 Proof.
   intros x s ex. unfold step_bool.
   assert (Hpub : forall y, N.eqb y x = true -> public y = public x) by (intros y E; apply N.eqb_eq in E; now subst).
-  destruct s as [o|v|m v|v e|m b|tg il wc ig|t a wc|t names wc|k v vals body]; cbn [book binds];
+  destruct s as [o|v|m v|v e|m b|tg il wc ig|t a wc|t names wc|k v vals body|t0]; cbn [book binds];
     try (left; destruct (public x); reflexivity).
   - destruct (N.eqb v x) eqn:E.
     + rewrite (Hpub v E). destruct (public x) eqn:Ep; [|left; reflexivity].
@@ -374,11 +383,11 @@ Proof.
     rewrite (last_binder_acc x r (Some t)). destruct (last_binder x r None); reflexivity.
 Qed.
 
-Lemma exports_exact_gen : forall P ts fuel s body s' x,
+Lemma exports_exact_gen : forall P ts fuel s body s' x, no_extend body = true ->
   c_exported (s_ctx s) = [] -> run_body P ts fuel true s body = Ok s' ->
   mem x (c_exported (s_ctx s')) = exported_spec body x.
 Proof.
-  intros P ts fuel s body s' x H0 H. rewrite (run_body_book P ts fuel s body s' H), H0, fold_book_spec.
+  intros P ts fuel s body s' x Hn H0 H. rewrite (run_body_book P ts fuel s body s' Hn H), H0, fold_book_spec.
   unfold exported_spec. destruct (public x); [|reflexivity]. cbn [andb mem existsb].
   destruct (last_binder x body None) as [[|]|]; reflexivity.
 Qed.
